@@ -179,7 +179,7 @@ func (tr *Tracer) havocReferent(st *state, a *Sym) {
 		for k, c := range st.store {
 			if c.addr.root() == r || c.addr.root().Key() == r.Key() {
 				if c.addr.Kind == KIndexAddr {
-					st.store[k] = &cell{addr: c.addr, val: st.fresh("argmem", nil, nil)}
+					st.store[k] = &cell{addr: c.addr, val: st.later(c.addr, nil)}
 				}
 			}
 		}
